@@ -45,6 +45,14 @@ def cases(rng, tier):
             {"op": "authorize", "client": "c1", "redirect": at_auth, "scope": "a", "challenge": None, "method": None, "user": 1, "approve": True},
             {"op": "redeem", "auth": ["c1", "client_secret_basic"], "code": "code1", "redirect": at_token, "verifier": None}],
             "expect": [at_auth == esc, at_auth == esc and at_token == esc]})      # a code is issued for the registered spelling only; it is redeemed with the identical string only
+    # near-miss spellings of the redirect URI at the token endpoint: "the identical redirect URI that was sent at authorization"
+    for base in ("https://c1/cb", "https://c1/dir/"):
+        for near in (base, base + "/", base.rstrip("/"), base + "?", base + "#", base.replace("c1", "C1"), base + " ", " " + base, base.replace("https", "HTTPS"), base + "//",
+                     base.replace("/c", "/%63").replace("/d", "/%64"), base + "/.", base.replace("c1", "c1:443")):
+            out.append({"cfg": dict(H.World().cfg), "ops": [
+                {"op": "authorize", "client": "c1", "redirect": base, "scope": "a", "challenge": None, "method": None, "user": 1, "approve": True},
+                {"op": "redeem", "auth": ["c1", "client_secret_basic"], "code": "code1", "redirect": near, "verifier": None}],
+                "expect": [True, near == base], "registered": base})
     # a denial expressed on the request object of the consent step (it still carries the resource owner): no code, hence no token
     for approve in (False, True):
         out.append({"cfg": dict(H.World().cfg), "ops": [
@@ -84,7 +92,7 @@ def oracle_core(c, out):
         got = [out["outs"][0].get("code") is not None, out["outs"][1].get("access") is not None]
         if got != c["expect"]:
             v.append((f"authorization with redirect_uri {c['ops'][0]['redirect']!r} then token request with {c['ops'][1]['redirect']!r}: code issued / token issued = {got}, "
-                      f"the statement requires {c['expect']} (the registered URI is {'https://c1/cb3?next=%2Fhome'!r})", {"kind": "redirect-spelling"}))
+                      f"the statement requires {c['expect']} (the registered URI is {c.get('registered', 'https://c1/cb3?next=%2Fhome')!r})", {"kind": "redirect-spelling"}))
     return v
 
 
